@@ -112,7 +112,7 @@ func startServer(kind string, port int, withCert bool, tgt *vlib.Target) (*serve
 		kp := vlib.GetPKI().ServerGood
 		sc.Config = cert.Config{Certificate: kp.CertPEM, PrivateKey: kp.KeyPEM}
 		srv = &server.SocketServer{ServerConfig: sc, Address: addr.MustParseAddress(fmt.Sprintf("tcp+tls://127.0.0.1:%d", port))}
-	case "http":
+	case "http", "ws":
 		srv = &server.HttpServer{ServerConfig: sc, Address: addr.MustParseAddress(fmt.Sprintf("http://127.0.0.1:%d", port)),
 			Endpoints: server.WebsocketEndpointList{server.HttpEndpoint{Endpoint: "/ws/all"}}}
 	case "udp":
@@ -133,6 +133,9 @@ func mkUpstream(kind string, port int) upstream.Upstream {
 		return &upstream.Socket{Address: addr.MustParseAddress(fmt.Sprintf("tcp+tls://127.0.0.1:%d", port))}
 	case "http":
 		return &upstream.Http{Address: addr.MustParseAddress(fmt.Sprintf("http://127.0.0.1:%d/ws/all", port))}
+	case "ws":
+		// the same carrier under its other documented spelling
+		return &upstream.Http{Address: addr.MustParseAddress(fmt.Sprintf("ws://127.0.0.1:%d/ws/all", port))}
 	default:
 		return &upstream.Packet{Address: addr.MustParseAddress(fmt.Sprintf("udp://127.0.0.1:%d", port))}
 	}
@@ -482,7 +485,7 @@ func TestPolicy(t *testing.T) {
 			fates = append(fates, fInsecure, fInsecure)
 		}
 		for i := 0; i < n; i++ {
-			u := upSpec{Kind: []string{"tcp", "http", "udp", "tcp+tls"}[rapid.IntRange(0, 3).Draw(rt, "kind")]}
+			u := upSpec{Kind: []string{"tcp", "http", "udp", "tcp+tls", "ws"}[rapid.IntRange(0, 4).Draw(rt, "kind")]}
 			if u.Kind == "tcp+tls" && d.MustSecure {
 				// a TLS carrier satisfies the requirement by itself: "works but insecure" does not exist for it
 				fates = []string{fWorks, fWorks, fRefused, fError}
@@ -530,7 +533,7 @@ func TestPolicy(t *testing.T) {
 func TestSilentUpstreams(t *testing.T) {
 	bound := 75 * time.Second
 	var cases []caseDesc
-	for _, kind := range []string{"tcp", "http", "udp", "tcp+tls"} {
+	for _, kind := range []string{"tcp", "http", "udp", "tcp+tls", "ws"} {
 		cases = append(cases, caseDesc{Ups: []upSpec{{kind, fSilent}, {"tcp", fWorks}}, Forward: "none", K: 1, Loss: "none"})
 		cases = append(cases, caseDesc{Ups: []upSpec{{"tcp", fRefused}, {kind, fSilent}, {"http", fWorks}}, Forward: "unreachable", K: 2, Loss: "none"})
 	}
@@ -544,6 +547,35 @@ func TestSilentUpstreams(t *testing.T) {
 	for i := range cases {
 		wg.Add(1)
 		go func(i int) { defer wg.Done(); problems[i], inconcl[i] = runCase(cases[i], bound) }(i)
+	}
+	wg.Wait()
+	for i, d := range cases {
+		if inconcl[i] {
+			vlib.Rec.Inconclusive("setup")
+			continue
+		}
+		vlib.Rec.Case(fmt.Sprintf("%+v", d), true, describe(d), func() interface{} { return d })
+		if problems[i] != "" {
+			vlib.Rec.Violation(map[string]interface{}{"property": "C16", "case": d, "problem": problems[i]})
+			t.Errorf("C16 %+v: %s", d, problems[i])
+		}
+	}
+}
+
+// TestInsecureUpstreamsAreSkipped enumerates, with security required, every carrier spelling whose first upstream works
+// but cannot be secured (no certificate, so no StartTLS) followed by one that can: the policy must settle on the second.
+func TestInsecureUpstreamsAreSkipped(t *testing.T) {
+	var cases []caseDesc
+	for _, kind := range []string{"tcp", "http", "ws", "udp"} {
+		cases = append(cases, caseDesc{Ups: []upSpec{{kind, fInsecure}, {"tcp", fWorks}}, Forward: "none", MustSecure: true, K: 1, Loss: "none"})
+		cases = append(cases, caseDesc{Ups: []upSpec{{kind, fInsecure}}, Forward: "none", MustSecure: true, K: 1, Loss: "none"})
+	}
+	problems := make([]string, len(cases))
+	inconcl := make([]bool, len(cases))
+	var wg sync.WaitGroup
+	for i := range cases {
+		wg.Add(1)
+		go func(i int) { defer wg.Done(); problems[i], inconcl[i] = runCase(cases[i], 15*time.Second) }(i)
 	}
 	wg.Wait()
 	for i, d := range cases {
